@@ -398,6 +398,12 @@ class LowerToIRVisitor(Visitor.DefaultVisitor):
     def v_ConstructPrimitiveExpression(self, expr, ctx):
         values = [self.v_Visit(e, ctx) for e in expr]
 
+        if expr.GetType().IsScalar():
+            # A scalar constructed from a scalar is just the (already
+            # converted) argument
+            assert len(values) == 1
+            return values[0]
+
         cpi = LinearIR.ConstructPrimitiveInstruction(
             ctx.AdaptType(expr.GetType()), values
         )
